@@ -261,16 +261,17 @@ def judge_run(ctx, d, label):
             if ok_d[i] != ok_d[0]:
                 diffk = sorted(k for k in set(ok_d[0]) | set(ok_d[i]) if ok_d[0].get(k) != ok_d[i].get(k))[:5]
                 fails.append(dict(name="dump-%s-%d" % (label, ctx.seed),
-                                  case=dict(run=label, keys=diffk, a={k: ok_d[0].get(k) for k in diffk},
+                                  case=dict(run=label, seed=meta.get("seed"), mode=meta.get("mode"), engine=meta.get("engine"),
+                                            keys=diffk, a={k: ok_d[0].get(k) for k in diffk},
                                             b={k: ok_d[i].get(k) for k in diffk}, nemesis=meta.get("nemesis")),
                                   what="replica dumps differ after quiescence on %s" % diffk))
                 break
         lc = meta.get("log_check") or {}
         if lc.get("disagree"):
-            fails.append(dict(name="log-%s-%d" % (label, ctx.seed), case=dict(run=label, disagree=lc["disagree"]),
+            fails.append(dict(name="log-%s-%d" % (label, ctx.seed), case=dict(run=label, seed=meta.get("seed"), mode=meta.get("mode"), engine=meta.get("engine"), disagree=lc["disagree"]),
                               what="replicas applied different entries at the same index: %s" % lc["disagree"][0]))
         if lc.get("dup_ids"):
-            fails.append(dict(name="dupid-%s-%d" % (label, ctx.seed), case=dict(run=label, dup=lc["dup_ids"]),
+            fails.append(dict(name="dupid-%s-%d" % (label, ctx.seed), case=dict(run=label, seed=meta.get("seed"), mode=meta.get("mode"), engine=meta.get("engine"), dup=lc["dup_ids"]),
                               what="a request id occurs twice in the replicated log: %s" % lc["dup_ids"][0]))
         stats["log_compared"] = lc.get("compared", 0)
         stats["request_ids"] = lc.get("request_ids", 0)
@@ -338,9 +339,15 @@ def run(ctx):
                 log("replay: %s impl=%s model=%s" % (k, a, b))
                 all_fail.append(dict(name="replay-seq-" + k, case=case,
                                      what="implementation reply differs from the sequential specification: impl=%s spec=%s" % (a, b)))
-        else:
-            log("replay file has neither a history nor sequential cases (kind=%s): re-running the check" % rp.get("kind"))
         plan = []
+        if not case.get("history") and not case.get("cases_tsv"):
+            if case.get("seed") is not None and case.get("mode"):
+                # a dump / log / request-id failure: the schedule cannot be replayed exactly; the same seeded
+                # configuration is run again (same clients, same nemesis schedule, fresh interleaving)
+                log("replay: re-running the recorded configuration (seed %s, %s, %s)" % (case["seed"], case["mode"], case.get("engine")))
+                plan = [("replay", int(case["seed"]), case["mode"], case.get("engine") or "mem", 20, 6, 10)]
+            else:
+                log("replay file has neither a history nor sequential cases (kind=%s): nothing to re-run" % rp.get("kind"))
     elif quick:
         plan = [("q1", ctx.seed, "inproc", "mem", 12, 6, 30),
                 ("q2", ctx.seed + 7000, "procs", "pebble", 14, 6, 10)]
